@@ -271,3 +271,15 @@ package middleware
 //@     && ((ret0 == ret0(getBasicAuthCredentials) && (ret1(getBasicAuthCredentials) == "x-oauth-basic" || ret1(getBasicAuthCredentials) == ""))
 //@         || (ret0 == ret1(getBasicAuthCredentials) && !reMatch(j.jwtRegex, ret0(getBasicAuthCredentials))))
 //@ ensures[an-error-carries-nothing] ret1 != nil ==> ret0 == ""
+
+// ------------------------------------------------------------------ what a handler closure sees under a constructor parameter's name is what the caller passed
+// (a wrapper slipped in between — a caching validator, a decorated store — would be invisible to the contracts of the closures)
+//@ prop C01 C20 C12 C13 C19 C04 C07 C16 C17
+//@ scan[constructor-parameters-reach-the-closures-as-given] params-captured-as-given pkg/middleware.* pkg/upstream.* pkg/header.* pkg/sessions/* pkg/app/* pkg/apis/middleware.* main.* pkg/cookies.* providers.* pkg/providers/* pkg/authentication/* pkg/validation.* pkg/requests.* pkg/ip.* pkg/encryption.* pkg/util.*
+
+// the legacy prefer-email switch only copies the user name of the session the basic loader produced (possibly none)
+//@ func loadBasicAuthSession$1
+//@ safety
+//@ prop C19 C01
+//@ ensures[the-validated-basic-session-or-nothing] ret0 == ret0(getBasicSession) && ret1 == ret1(getBasicSession)
+//@     && arg(getBasicSession, 0) == validator && arg(getBasicSession, 2) == req
